@@ -37,9 +37,13 @@ def own_deadlock_sites(ctx, rule, fns=None):
             n_sites += 1
             live = init_at_terminator(f, IN, bb)
             owners = []
+            # the writer this call writes *to* (lent by reference) is not an earlier one
+            lent = backward_slice_locals(f, [op_local(a) for a in t["args"] if op_local(a) is not None])
             for l in sorted(live):
                 ty = f.local_ty(l)
                 if not holds_writer_types(ty):
+                    continue
+                if l in lent and "request::Request" not in ty:
                     continue
                 v = (VF[bb] or {}).get(l)
                 if v is not None:
@@ -221,3 +225,25 @@ def eval_from(f, start, init=None):
     for p in symex.enumerate_paths(f, start=start):
         outs.append((p, symex.run_path(f, p, init)))
     return outs
+
+
+
+def backward_slice_locals(f, seeds, limit=200):
+    """locals a set of temporaries is computed from (through refs, copies, moves, call arguments)"""
+    seen = set()
+    work = list(seeds)
+    while work and len(seen) < limit:
+        l = work.pop()
+        if l in seen:
+            continue
+        seen.add(l)
+        for d in f.defs().get(l, []):
+            if d[0] == "assign":
+                for p, kind in rvalue_places(d[3]):
+                    work.append(p["l"])
+            elif d[0] == "call":
+                for a in d[2]["args"]:
+                    p = op_place(a)
+                    if p:
+                        work.append(p["l"])
+    return seen
